@@ -7,11 +7,12 @@ import sys
 from harness.core import pool, tb
 from harness.gen import systems
 
-PROOF_MODULE = ["OdeVerif.Proofs.C07", "OdeVerif.Proofs.RefineConfig"]
-GENERATED = ['PyConfig', 'Constants']
+PROOF_MODULE = ["OdeVerif.Proofs.C07", "OdeVerif.Proofs.RefineConfig", "OdeVerif.Proofs.RefineTesterArgs"]
+GENERATED = ['PyConfig', 'Constants', "PyTesterArgs"]
 THEOREMS = ["OdeVerif.C07.probe_history_independent", "OdeVerif.C07.run_pointwise", "OdeVerif.C07.unspecified_takes_default",
             "OdeVerif.C07.defaults_documented", "OdeVerif.C07.unknown_option_rejected", "OdeVerif.C07.prefix_history_dependent",
-            "OdeVerif.Refine.readGlobalConfig_refines", "OdeVerif.Refine.analysisPrologue_refines", "OdeVerif.Refine.analysisPrologue_ignores_store"]
+            "OdeVerif.Refine.readGlobalConfig_refines", "OdeVerif.Refine.analysisPrologue_refines", "OdeVerif.Refine.analysisPrologue_ignores_store",
+            "OdeVerif.Refine.testerKwargs_numeric", "OdeVerif.Refine.testerKwargs_options_block_irrelevant"]
 LEVEL = "proof"
 
 OPTION_MENU = [("input_time_symbol", ["s", "time", "T"]), ("output_timestep_symbol", ["dt", "h_step"]), ("differential_order_symbol", ["_D", "__prime"]),
